@@ -58,7 +58,7 @@ def run(ctx):
     mc = modelcheck.run_parser_model(ctx, PROPS, cbfail_ok=False)
     scns = scenarios(ctx)
     import drift
-    drift.with_steps(scns, every=1 if not ctx.quick else max(1, -(-len(scns) // 1000)))
+    drift.with_steps(scns, every=max(1, -(-len(scns) // (1000 if ctx.quick else 8000))))
     exe = vlib.build(ctx, "san", ["rec"])["rec"]
     files = streams.run_rec(ctx, exe, scns, "c16")
     execs, events, viols = streams.judge_obs(ctx, files, PROPS)
